@@ -98,7 +98,7 @@ func c06Check(cc *run.Case, ns namedStrat, class string, n int) {
 }
 
 func c06(ctx *run.Ctx) {
-	base := baseStrats(ctx, ctx.Pick(8, 20))
+	base := baseStrats(ctx, ctx.Pick(8, 60))
 	classes := []string{gen.Walk, gen.Walk2, gen.Dyadic, gen.Ties}
 	if !ctx.Quick() {
 		classes = gen.OHLCVClasses
@@ -106,7 +106,7 @@ func c06(ctx *run.Ctx) {
 	for _, row := range reg.SortedStrats() {
 		ctx.Count("cmp:"+row.Name, 0)
 	}
-	reps := ctx.Pick(1, 3)
+	reps := ctx.Pick(1, 5)
 	for si, ns := range base {
 		ns := ns
 		for _, class := range classes {
